@@ -1,7 +1,7 @@
-(** Request decoder for the C12 model (type code: TyCode.v).
-    Request: [k; name1; ty1; ...; namek; tyk (most recent declaration first); ty] -> the resolved type in the same code, or [-1] *)
+(** Request decoder for the C02 model: [k; name1; ty1; ...; namek; tyk; ty] (type code of Entry_C12; the environment is a flat
+    declaration graph, first entry of a name wins) -> the resolved type, or [-1] *)
 From Coq Require Import ZArith List Bool NArith.
-From PV Require Import C12Model TyCode.
+From PV Require Import C12Model C02Model TyCode.
 Import ListNotations.
 Local Open Scope Z_scope.
 
@@ -11,7 +11,7 @@ Definition run (req : list Z) : list Z :=
       match dec_env (Z.to_nat k) r with
       | Some (e, r') =>
           match dec (length r') r' with
-          | Some (t, _) => match resolve (S (size t + total e)) e t with Some x => enc x | None => [-1] end
+          | Some (t, _) => match resolve_g (bound e t) e [] t with Some x => enc x | None => [-1] end
           | None => [-2]
           end
       | None => [-2]
